@@ -1,0 +1,121 @@
+//! Verification hooks (only compiled with `--cfg cicada_verif`).
+//!
+//! Thin `pub` wrappers that expose crate-private functions as plain data so that an external
+//! replay tool can validate the symbolic encoding against the natively compiled code.
+//! Nothing here is referenced by the shell itself.
+#![allow(missing_docs)]
+
+use crate::parsers::parser_line;
+use crate::shell;
+use crate::tools;
+use crate::types;
+
+pub type Tokens = Vec<(String, String)>;
+pub type Sh = shell::Shell;
+
+pub fn line_to_cmds(line: &str) -> Vec<String> {
+    parser_line::line_to_cmds(line)
+}
+
+pub fn parse_line(line: &str) -> (Tokens, bool) {
+    let li = parser_line::parse_line(line);
+    (li.tokens, li.is_complete)
+}
+
+pub fn tokens_to_line(tokens: &Tokens) -> String {
+    parser_line::tokens_to_line(tokens)
+}
+
+pub fn tokens_to_redirections(tokens: &Tokens) -> Result<(Tokens, Vec<(String, String, String)>), String> {
+    parser_line::tokens_to_redirections(tokens)
+}
+
+pub fn is_arithmetic(line: &str) -> bool {
+    tools::is_arithmetic(line)
+}
+
+pub fn wrap_sep_string(sep: &str, s: &str) -> String {
+    tools::wrap_sep_string(sep, s)
+}
+
+pub fn escape_path(s: &str) -> String {
+    tools::escape_path(s)
+}
+
+pub fn expand_args(line: &str, args: &[String]) -> String {
+    crate::scripting::verif::expand_args(line, args)
+}
+
+pub fn trim_multiline_prompts(line: &str) -> String {
+    shell::trim_multiline_prompts(line)
+}
+
+pub fn run_calculator(line: &str) -> Result<String, String> {
+    crate::core::run_calculator(line).map_err(|e| e.to_string())
+}
+
+/// A planned command line as plain data:
+/// (commands[(tokens, redirects_to, redirect_from)], envs(sorted), background)
+pub type Plan = (
+    Vec<(Tokens, Vec<(String, String, String)>, Option<(String, String)>)>,
+    Vec<(String, String)>,
+    bool,
+);
+
+pub fn new_shell() -> shell::Shell {
+    shell::Shell::new()
+}
+
+pub fn from_line(line: &str, sh: &mut shell::Shell) -> Result<Plan, String> {
+    let cl = types::CommandLine::from_line(line, sh)?;
+    let mut cmds = Vec::new();
+    for c in cl.commands {
+        cmds.push((c.tokens, c.redirects_to, c.redirect_from));
+    }
+    let mut envs: Vec<(String, String)> = cl.envs.into_iter().collect();
+    envs.sort();
+    Ok((cmds, envs, cl.background))
+}
+
+pub fn do_expansion(sh: &mut shell::Shell, tokens: &mut Tokens) {
+    shell::do_expansion(sh, tokens)
+}
+
+pub fn expand_env(sh: &shell::Shell, tokens: &mut Tokens) {
+    shell::expand_env(sh, tokens)
+}
+
+pub fn run_command_line(sh: &mut shell::Shell, line: &str) -> Vec<i32> {
+    crate::execute::run_command_line(sh, line, false, false)
+        .into_iter()
+        .map(|cr| cr.status)
+        .collect()
+}
+
+pub fn expand_one_env(sh: &shell::Shell, token: &str) -> String {
+    shell::verif::expand_one_env(sh, token)
+}
+
+pub fn env_in_token(token: &str) -> bool {
+    shell::verif::env_in_token(token)
+}
+
+pub fn expand_brace(tokens: &mut Tokens) {
+    shell::verif::expand_brace(tokens)
+}
+
+pub fn expand_brace_range(tokens: &mut Tokens) {
+    shell::verif::expand_brace_range(tokens)
+}
+
+pub fn expand_alias(sh: &shell::Shell, tokens: &mut Tokens) {
+    shell::verif::expand_alias(sh, tokens)
+}
+
+pub fn expand_home(tokens: &mut Tokens) {
+    shell::verif::expand_home(tokens)
+}
+
+pub fn need_expand_brace(line: &str) -> bool {
+    shell::verif::need_expand_brace(line)
+}
